@@ -3,7 +3,7 @@ import ast
 import z3
 
 from .vals import (Val, PyList, PyDict, ExcVal, Callable_, Int, Bool, Str, Bytes, NoneT, NONE, Ty, TInt, TBool, TStr, TBytes,
-                   TNone, TRef, TOpt, TSet, TMap, TSeq, TTuple, TRec, TOpaque, mk_int, mk_bool, mk_str, fresh,
+                   TNone, TRef, TOpt, TSet, TMap, TSeq, TTuple, TRec, TOpaque, TLSet, mk_int, mk_bool, mk_str, fresh,
                    mk_none_opt, mk_some, opt_isnone, opt_inner, empty_set, empty_map, empty_seq, seq_unit, coerce, veq,
                    truth, ite_val, fresh_name)
 from .state import Unsupported, Raise, State
@@ -38,7 +38,8 @@ class CallMixin:
                 return Callable_("lemma", name, obj=dsl.REG.lemmas[name])
             if name in ("old", "implies", "result", "use", "hint", "iff", "fresh_ref", "subset", "union", "setminus", "mapdom",
                         "singleton", "setadd", "setdel", "mapset", "mapdel", "seqlen", "issub", "isinst", "typeof", "ite", "mapget",
-                        "emptyset", "length", "inter", "exc_is", "some", "unopt", "isnone", "const", "cast"):
+                        "emptyset", "length", "inter", "exc_is", "some", "unopt", "isnone", "const", "cast", "elems", "distinct",
+                        "str_init", "str_last", "str_first", "has", "aslist"):
                 return Callable_("dslfn", name)
         mod = env.get("__mod__")
         if mod is not None:
@@ -167,6 +168,7 @@ class CallMixin:
         key, arrs = self.heap_arrays(st, owner, field, fty)
         st.heap[key] = [z3.Store(a, ref.t, t) for a, t in zip(arrs, value.terms)]
         st.written.add(key)
+        st.written_at.setdefault(key, []).append(ref.t)
 
     def assume_wellformed(self, st, v):
         """Ground well-formedness facts of a freshly read value (allocated refs, non-negative lengths are built in)."""
@@ -231,7 +233,7 @@ class CallMixin:
     def call(self, node, st):
         f = node.func
         # contract-language functions
-        if isinstance(f, ast.Name) and st.env.get("__contract__") and f.id in ("old", "forall", "exists"):
+        if isinstance(f, ast.Name) and st.env.get("__contract__") and f.id in ("old", "forall", "exists", "setof"):
             yield from self.dsl_special(f.id, node, st)
             return
         if isinstance(f, ast.Attribute):
@@ -285,6 +287,14 @@ class CallMixin:
             if fty is not None:    # callable stored in a field: not supported
                 raise Unsupported("call of field %s" % attr, node)
             yield from self.call_method(obj, attr, args, kwargs, st, node)
+            return
+        if isinstance(obj, Val) and isinstance(obj.ty, TOpt):
+            # a method call on None is an AttributeError: fork
+            for st1, isn in self.branch(st, opt_isnone(obj)):
+                if isn:
+                    yield st1, Raise(ExcVal("AttributeError"))
+                else:
+                    yield from self.value_method(opt_inner(obj), attr, args, kwargs, st1, node)
             return
         yield from self.value_method(obj, attr, args, kwargs, st, node)
 
@@ -480,6 +490,8 @@ class CallMixin:
                 yield st, x.length(st, self)
             elif isinstance(x.ty, (TStr, TBytes, TSeq)):
                 yield st, mk_int(z3.Length(x.t))
+            elif isinstance(x.ty, (TLSet, TSet)):
+                yield st, self.card(x, st)
             elif isinstance(x.ty, TOpt) and isinstance(x.ty.inner, (TStr, TBytes, TSeq)):
                 for st1, isn in self.branch(st, opt_isnone(x)):
                     if isn:
@@ -508,9 +520,33 @@ class CallMixin:
                     raise Unsupported("list(%r)" % x.ty, node)
         elif name == "set":
             if not args:
-                yield st, Callable_("emptyset", "set")
+                yield st, empty_set(Str)      # every set in the FUCs holds strings
             else:
-                raise Unsupported("set(x)", node)
+                (x,) = args
+                if isinstance(x, PyList):
+                    yield st, self.to_set(x, TSet(x.items[0].ty if x.items else Str), node)
+                elif isinstance(x.ty, TSet):
+                    yield st, x
+                elif isinstance(x.ty, TLSet):
+                    yield st, Val(TSet(x.ty.elem), [x.terms[0]])
+                elif isinstance(x.ty, TOpt) and isinstance(x.ty.inner, (TLSet, TSet)):
+                    for st1, isn in self.branch(st, opt_isnone(x)):
+                        if isn:
+                            yield st1, Raise(ExcVal("TypeError"))
+                        else:
+                            yield st1, Val(TSet(x.ty.inner.elem), [x.terms[1]])
+                else:
+                    raise Unsupported("set(%r)" % x.ty, node)
+        elif name == "sorted":
+            (x,) = args
+            if isinstance(x, PyList):
+                x = coerce(x, TLSet(x.items[0].ty if x.items else Str))
+            if isinstance(x.ty, TSet):
+                yield st, Val(TLSet(x.ty.elem), [x.t, z3.BoolVal(True)])
+            elif isinstance(x.ty, TLSet):
+                yield st, x
+            else:
+                raise Unsupported("sorted(%r)" % x.ty, node)
         elif name == "bool":
             yield st, mk_bool(truth(args[0]))
         elif name == "type":
@@ -523,6 +559,17 @@ class CallMixin:
                 raise Unsupported("dict(x)", node)
         else:
             raise Unsupported("builtin %s" % name, node)
+
+    def card(self, x, st):
+        """len() of a list known by its element set: only `== 0` is meaningful; card is uninterpreted otherwise."""
+        arr = x.terms[0]
+        f = z3.Function("card!%s" % arr.sort().domain(), arr.sort(), z3.IntSort())
+        n = f(arr)
+        (es,) = x.ty.elem.comps()
+        st.axiom(n >= 0)
+        st.axiom((n == 0) == (arr == z3.K(es, z3.BoolVal(False))))
+        self.note_assumption("len() of a set-like value is an uninterpreted cardinality with card>=0 and card==0 <=> empty")
+        return mk_int(n)
 
     def type_of(self, x, node):
         if isinstance(x, Val):
@@ -552,7 +599,7 @@ class CallMixin:
             if self.repo.cls(c.name) is None and c.name not in dsl.REG.classes:
                 raise Unsupported("isinstance against unknown class %s" % c.name, node)
             return self.isinstance_term(x, c.name)
-        table = {"str": TStr, "int": (TInt, TBool), "bool": TBool, "bytes": TBytes, "list": TSeq, "set": TSet,
+        table = {"str": TStr, "int": (TInt, TBool), "bool": TBool, "bytes": TBytes, "list": (TSeq, TLSet), "set": TSet,
                  "dict": (TMap, TRec), "tuple": TTuple}
         if c.kind == "builtin" and c.name in table:
             return z3.BoolVal(isinstance(ty, table[c.name]))
@@ -565,6 +612,7 @@ class CallMixin:
     # ------------------------------------------------------------------ methods of values
     def value_method(self, obj, meth, args, kwargs, st, node):
         from .strings import SplitVal
+        self._cur_st = st
         if isinstance(obj, Callable_) and obj.kind == "emptyset":
             raise Unsupported("method on untyped empty set", node)
         lv = node.func.value if isinstance(node, ast.Call) and isinstance(node.func, ast.Attribute) else None
@@ -601,7 +649,10 @@ class CallMixin:
                 yield st, NONE
             elif meth in ("remove", "discard"):
                 x = args[0]
-                new = Val(ty, [z3.Store(obj.t, x.t, False)]) if x.ty.comps() == ty.elem.comps() else obj
+                if isinstance(x.ty, TOpt) and x.ty.inner.comps() == ty.elem.comps():
+                    new = Val(ty, [z3.If(opt_isnone(x), obj.t, z3.Store(obj.t, x.terms[1], False))])
+                else:
+                    new = Val(ty, [z3.Store(obj.t, x.t, False)]) if x.ty.comps() == ty.elem.comps() else obj
                 inn = self.contains(obj, x, node)
                 if meth == "discard":
                     self.write_back(lv, new, st, node)
@@ -660,6 +711,11 @@ class CallMixin:
     def to_set(self, x, ty, node):
         if isinstance(x, Val) and isinstance(x.ty, TSet):
             return x
+        if isinstance(x, Val) and isinstance(x.ty, TLSet):
+            return Val(TSet(x.ty.elem), [x.terms[0]])
+        if isinstance(x, Val) and isinstance(x.ty, TOpt) and isinstance(x.ty.inner, (TLSet, TSet)):
+            self.check(self._cur_st, z3.Not(opt_isnone(x)), "safe", "not-none@set-argument", node)
+            return Val(TSet(x.ty.inner.elem), [x.terms[1]])
         if isinstance(x, PyList):
             out = empty_set(ty.elem)
             for it in x.items:
